@@ -2916,6 +2916,14 @@ fn merge_parallel_deltas(worker_results: Vec<WorkerResult>) -> Result<Vec<WarpOp
     }
 }
 
+/// Verification-only seam (feature `echo_verif`): the real merge of the commit path.
+#[cfg(feature = "echo_verif")]
+pub(crate) fn echo_verif_merge_parallel_deltas(
+    worker_results: Vec<WorkerResult>,
+) -> Result<Vec<WarpOp>, EngineError> {
+    merge_parallel_deltas(worker_results)
+}
+
 /// Result of validating and grouping rewrites by warp.
 #[cfg(any(debug_assertions, feature = "footprint_enforce_release"))]
 #[cfg(not(feature = "unsafe_graph"))]
